@@ -37,6 +37,7 @@ type CheckSpec struct {
 	ThoroughTimeoutS int `json:"thorough_timeout_s"`
 	ThoroughFunctions []FuncSpec `json:"thorough_functions"`
 	Selftest    []SelftestCase `json:"selftest"`
+	Benign      []SelftestCase `json:"benign"` // behaviour-preserving edits: no obligation may fail
 	// Closure adds every own function statically reachable from Functions (zero-annotation sweep).
 	Closure     bool     `json:"closure"`
 	ClosureSkip []string `json:"closure_skip"`
@@ -139,6 +140,21 @@ func runCheck(args []string) int {
 		return 2
 	}
 	if mode == "selftest" {
+		if len(args) > 2 {
+			// govc selftest <id> <substring>: only the corpus entries whose name contains it
+			var st, bn []SelftestCase
+			for _, tc := range spec.Selftest {
+				if strings.Contains(tc.Name, args[2]) {
+					st = append(st, tc)
+				}
+			}
+			for _, tc := range spec.Benign {
+				if strings.Contains(tc.Name, args[2]) {
+					bn = append(bn, tc)
+				}
+			}
+			spec.Selftest, spec.Benign = st, bn
+		}
 		return runSelftest(&spec)
 	}
 	t0 := time.Now()
@@ -248,6 +264,9 @@ func executeSpec(spec *CheckSpec, tier string, overlay map[string][]byte) (*runR
 				if !have[k] && !skipSet[k] {
 					if ct := cs.Funcs[k]; ct != nil && ct.Flag("trusted") {
 						continue
+					}
+					if cs.Funcs[k] == nil && eng.InlinedEverywhere(p, p.Funcs[k]) {
+						continue // verified inside each caller
 					}
 					have[k] = true
 					fns = append(fns, FuncSpec{Name: k, Why: "reachable from the listed functions"})
@@ -585,6 +604,58 @@ func runSelftest(spec *CheckSpec) int {
 			fmt.Printf("selftest %s: caught by %s\n", tc.Name, tc.Expect)
 		} else {
 			fmt.Printf("ENGINE-SELFTEST-FAILED %s: mutant not caught by %s\n", tc.Name, tc.Expect)
+			bad++
+		}
+	}
+	// behaviour-preserving edits (refactorings a contributor might make): the check must stay silent
+	for _, tc := range spec.Benign {
+		file := filepath.Join("/repo", tc.File)
+		data, err := os.ReadFile(file)
+		if err != nil {
+			fmt.Println("ENGINE-SELFTEST-FAILED", tc.Name, err)
+			bad++
+			continue
+		}
+		mutated := string(data)
+		missing := false
+		for _, m := range append([]struct {
+			Old string `json:"old"`
+			New string `json:"new"`
+		}{{tc.Old, tc.New}}, tc.More...) {
+			if !strings.Contains(mutated, m.Old) {
+				missing = true
+			}
+			mutated = strings.Replace(mutated, m.Old, m.New, 1)
+		}
+		if missing {
+			fmt.Printf("ENGINE-SELFTEST-SKIPPED %s: anchor text not present in %s (code changed)\n", tc.Name, tc.File)
+			continue
+		}
+		rr, err := executeSpec(spec, "quick", map[string][]byte{file: []byte(mutated)})
+		if err != nil {
+			fmt.Println("ENGINE-SELFTEST-FAILED benign", tc.Name, err)
+			bad++
+			continue
+		}
+		alarm := ""
+		for _, o := range rr.Obls {
+			if o.Result != "discharged" {
+				alarm = o.Name + " (" + o.Why + ")"
+			}
+		}
+		for _, f := range rr.Funcs {
+			if f.Unsupported != "" {
+				alarm = f.Key + ": " + f.Unsupported
+			}
+		}
+		for _, m := range rr.Missing {
+			alarm = "missing " + m
+		}
+		os.RemoveAll(rr.Work)
+		if alarm == "" {
+			fmt.Printf("selftest benign %s: silent\n", tc.Name)
+		} else {
+			fmt.Printf("ENGINE-SELFTEST-FAILED benign %s: false alarm %s\n", tc.Name, alarm)
 			bad++
 		}
 	}
